@@ -750,6 +750,17 @@ fn grid_sources(tier: Tier) -> Vec<String> {
             out.push(format!("{{{{ '{brace}'|format({a}) }}}}"));
         }
     }
+    // a loop object that outlives its loop (stored in a namespace) and is read after the loop
+    // ended normally, early, or never ran
+    for it in ["l", "[]", "range(3)", "'ab'", "m", "[1]", "ll"] {
+        for stop in ["", "{% if loop.index == 2 %}{% break %}{% endif %}", "{% if loop.first %}{% continue %}{% endif %}"] {
+            for attr in ["revindex0", "revindex", "last", "first", "index", "index0", "length", "depth", "depth0", "previtem", "nextitem", "cycle(1, 2)", "changed(1)"] {
+                out.push(format!(
+                    "{{% set ns = namespace(l=none) %}}{{% for x in {it} %}}{{% set ns.l = loop %}}{stop}{{% endfor %}}[{{{{ ns.l.{attr} }}}}|{{{{ ns.l }}}}|{{{{ ns.l.{attr} }}}}]{{% for y in [1] %}}{{{{ ns.l.{attr} }}}}{{% endfor %}}"
+                ));
+            }
+        }
+    }
     // format strings that are marked safe (their arguments get escaped first), with arguments
     // that are undefined, none, safe, unsafe, or not strings; each row four times in a row so that
     // it runs under all four undefined behaviours (the mode is the row index modulo 4)
